@@ -357,7 +357,11 @@ class Interp:
                 break
             if name in c.attr_nodes:
                 saved = self.stack
-                self.stack = [Frame(None, c.module, {})]
+                env = {}
+                for nn in ast.walk(c.attr_nodes[name]):     # class-body scope: earlier class attributes
+                    if isinstance(nn, ast.Name) and nn.id in c.attr_nodes and nn.id != name:
+                        env[nn.id] = self.class_attr(c, nn.id)
+                self.stack = [Frame(None, c.module, env)]
                 try:
                     v = self.eval(c.attr_nodes[name], self.stack[0])
                 finally:
@@ -938,6 +942,10 @@ class Interp:
             raise AnalysisError(f"{self.where(node)}: {op} on {show(a)} and {show(b)}: {ex}")
 
     def term_binop(self, op, a, b, node):
+        if isinstance(a, Fold):
+            a = a.as_term()
+        if isinstance(b, Fold):
+            b = b.as_term()
         sa, sb = sort_of(a), sort_of(b)
         if "bytes" in (sa, sb):
             if op == "add":
@@ -1102,6 +1110,9 @@ class Interp:
             parts = (idx.start, idx.stop, idx.step)
             if not is_sym(base) and not any(is_sym(p) for p in parts):
                 return base[idx]
+            if isinstance(base, SymSeq):
+                nm = f"{base.name}[{show(idx.start)}:{show(idx.stop)}:{show(idx.step)}]"
+                return SymSeq(nm, base.elem, Term("slice_len", (_hashable(base), _hashable(parts)), "int"), (base,))
             if idx.step is not None:
                 raise AnalysisError(f"{self.where(node)}: symbolic slice with step")
             if sort_of(base) != "bytes":
@@ -1373,6 +1384,45 @@ def _assigned_names(body):
 
 def _assigned_names_target(t):
     return {n.id for n in ast.walk(t) if isinstance(n, ast.Name)}
+
+
+def havoc_while(it, st, fr):
+    """while-hook: summarise `while test: body` whose test is concretely true on
+    entry (so the body runs at least once) by ONE generic last iteration: the
+    loop-carried variables are arbitrary on entry to that iteration, the body is
+    evaluated once, and the exit condition (test false) is assumed on the result.
+    Sound for every property of the state after the loop that holds for an
+    arbitrary carried state; the carried inputs are emitted for rules that
+    compare the body with a specification."""
+    c0 = it.eval(st.test, fr)
+    if is_sym(c0):
+        raise AnalysisError(f"{it.where(st)}: loop test symbolic on entry")
+    if not it.truth(c0, st.test):
+        return None
+    carried = {}
+    for nm in sorted(_assigned_names(st.body)):
+        if nm in fr.env:
+            h = Term("havoc", (nm, it.where(st)), sort_of(fr.env[nm]))
+            carried[nm] = (fr.env[nm], h)
+            fr.env[nm] = h
+    it.emit("while_enter", carried={k: v for k, v in carried.items()}, node=st)
+    it.sym_loop_depth += 1
+    try:
+        it.exec_block(st.body, fr)
+    except (_Break, _Continue):
+        raise AnalysisError(f"{it.where(st)}: break/continue in summarised while loop")
+    finally:
+        it.sym_loop_depth -= 1
+    c1 = it.eval(st.test, fr)
+    if not is_sym(c1):
+        if it.truth(c1, st.test):
+            raise AnalysisError(f"{it.where(st)}: loop test still true after the body for every carried state")
+    else:
+        cond = it.as_cond(c1, st.test)
+        it.assume(cond, False, f"loop exit {it.where(st)}")
+    it.emit("while_exit", carried={k: v for k, v in carried.items()},
+            final={k: fr.env.get(k) for k in carried}, exit_cond=c1, node=st)
+    return None
 
 
 # ---------------------------------------------------------------------------
